@@ -870,6 +870,17 @@ class Engine(object):
             return None
         ctx.used_contracts.add(fq)
         env = dict(env)
+        topc0 = self.contracts.get(ex.top_fq) if ex.top_fq else None
+        ev0 = (topc0.get("callee_events") or {}).get(fq.split("#")[0]) if topc0 else None
+        if isinstance(ev0, dict) and ev0.get("delegation"):
+            # pure delegation record: THAT the callee is called, with which arguments; whether those arguments are in the
+            # callee's verified domain is the callee's business (its own contract and battery), not an obligation here
+            names = [p.arg for p in fref.node.args.args if p.arg != "self" or ev0.get("with_receiver")]
+            ctx.__dict__.setdefault("trace", []).append((ev0["name"],) + tuple(env.get(n) for n in names))
+            ctx.tags.add("event view: %s recorded as one ghost event (delegation)" % fq.split("mingus.")[-1])
+            for o in self.modifies_objects(ex, contract, env):
+                ex.note_write(o)
+            return self.fresh_of_type(ex, contract.get("returns", "None"), "ret_" + fq.rsplit(".", 1)[-1], env)
         self.coerce_params(ex, contract, env, fq, line)
         fq = fq.split("#")[0]
         for (nm, pre) in self.norm_named(contract.get("requires"), "pre"):
